@@ -12,11 +12,12 @@ from ..shims import import_dclab
 
 PID = "C14"
 CFG = ("INIT MCInit\nNEXT Next\nCONSTRAINT Emit\nINVARIANT "
-       "NoLocalBelowRemote\nCONSTANTS\n K = {k}\n Rids <- ThreeRids\n"
+       "NoLocalBelowRemote\nCONSTANTS\n K = {k}\n Rids <- {rids}\n"
        " EdgeKinds <- {kinds}\n SelfLoops = {sl}\n RemoteToo = {rt}\n"
        "CHECK_DEADLOCK FALSE\n")
 FEAT = {1: "deform", 2: "area_um", 3: "bright_avg"}
-RID = {"a": "verif-a", "ax": "verif-a-x1", "b": "verif-b"}
+RID = {"a": "verif-a", "ax": "verif-a-x1", "b": "verif-b", "x": "x1",
+       "i": "a-x"}
 N = 5
 
 
@@ -146,7 +147,8 @@ def main(tier, seed, replay=None):
                "set of files whose features may be offered (reachability "
                "over matching, permitted definitions): all graphs over 3 "
                "files with file / mapped-file definitions and all "
-               "assignments of run identifiers (equal, prefix, unrelated), "
+               "assignments of run identifiers (equal, prefix, unrelated, "
+               "suffix and inner part of the referrer's), "
                "graphs with self references, and graphs with remote (http), "
                "dangling and local definitions opened locally and over a "
                "loop-back http server; every graph is written as real files, "
@@ -160,7 +162,13 @@ def main(tier, seed, replay=None):
     root = tlc.scratch_dir("vp_c14_")
     srv = httpd.Server(root)
     try:
-        plans = [("local graphs K=3", dict(k=3, kinds="LocalKinds",
+        plans = [("identifier relations K=2", dict(
+            k=2, kinds="LocalKinds", sl="FALSE", rt="FALSE",
+            rids="FiveRids"), 1),
+                 ("identifier relations K=3", dict(
+                     k=3, kinds="LocalKinds", sl="FALSE", rt="FALSE",
+                     rids="FiveRids"), 40 if q else 2),
+                 ("local graphs K=3", dict(k=3, kinds="LocalKinds",
                                            sl="FALSE", rt="FALSE"),
                   6 if q else 1),
                  ("self references K=2", dict(k=2, kinds="LocalKinds",
@@ -171,6 +179,7 @@ def main(tier, seed, replay=None):
                                               sl="FALSE", rt="TRUE"),
                   400 if q else 40)]
         for name, kw, samp in plans:
+            kw.setdefault("rids", "ThreeRids")
             res = tlc.run("MC_BasinGraph", CFG.format(**kw), workers=8,
                           timeout=3000)
             if not res.ok:
